@@ -13,6 +13,7 @@ pub fn replay(property: &'static str, path: &std::path::Path) -> ! {
     let kind = replay_kind(path);
 
     let res = match kind.as_str() {
+        k if k.starts_with("a2-") => crate::a2_checks::replay(property, path, property == "C06"),
         _ => {
             let (_k, case): (String, pdusim::Case) = load_replay(path);
             let mut info = CaseInfo::default();
@@ -32,8 +33,14 @@ pub fn c01(mut check: Check) -> ! {
 
     regressions(&mut check);
 
-    check.run_prop("a1-history", 16, tier.pick(4_000, 60_000), || strategy::case(profiles::c01(tier)), pdusim::prop_closure("C01"));
+    check.run_prop("a1-history", 16, tier.pick(8_000, 100_000), || strategy::case(profiles::c01(tier)), pdusim::prop_closure("C01"));
     check.run_prop("a1-history-wrap", 16, tier.pick(1_500, 30_000), || strategy::case(profiles::c01_wrap(tier)), pdusim::prop_closure("C01"));
+
+    // Yield-level schedules (engine A2)
+    crate::a2_checks::regressions(&mut check, false);
+    crate::a2_checks::explore(&mut check, "1slot-2tasks", &crate::a2_checks::fixed_scenario(1, 2, 1), tier.pick(2, 3), false, tier.pick(100_000, 3_000_000));
+    crate::a2_checks::explore(&mut check, "2slots-2tasks", &crate::a2_checks::fixed_scenario(2, 2, 2), tier.pick(1, 2), false, tier.pick(100_000, 3_000_000));
+    crate::a2_checks::run_random(&mut check, "a2-random", tier.pick(1_000, 30_000), false);
 
     check.finish()
 }
@@ -46,7 +53,7 @@ pub fn c03(mut check: Check) -> ! {
 
     regressions(&mut check);
 
-    check.run_prop("a1-history", 16, tier.pick(4_000, 60_000), || strategy::case(profiles::c03(tier)), pdusim::prop_closure("C03"));
+    check.run_prop("a1-history", 16, tier.pick(15_000, 200_000), || strategy::case(profiles::c03(tier)), pdusim::prop_closure("C03"));
 
     check.finish()
 }
@@ -59,7 +66,7 @@ pub fn c05(mut check: Check) -> ! {
 
     regressions(&mut check);
 
-    check.run_prop("a1-history", 16, tier.pick(4_000, 60_000), || strategy::case(profiles::c05(tier)), pdusim::prop_closure("C05"));
+    check.run_prop("a1-history", 16, tier.pick(15_000, 200_000), || strategy::case(profiles::c05(tier)), pdusim::prop_closure("C05"));
 
     check.finish()
 }
@@ -72,9 +79,19 @@ pub fn c06(mut check: Check) -> ! {
 
     regressions(&mut check);
 
-    check.run_prop("a1-history", 16, tier.pick(3_000, 50_000), || strategy::case(profiles::c06(tier, false, false)), pdusim::prop_closure("C06"));
-    check.run_prop("a1-history-retry-in-tx", 16, tier.pick(2_000, 30_000), || strategy::case(profiles::c06(tier, true, false)), pdusim::prop_closure("C06"));
+    check.run_prop("a1-history", 16, tier.pick(8_000, 100_000), || strategy::case(profiles::c06(tier, false, false)), pdusim::prop_closure("C06"));
+    check.run_prop("a1-history-retry-in-tx", 16, tier.pick(5_000, 60_000), || strategy::case(profiles::c06(tier, true, false)), pdusim::prop_closure("C06"));
     check.run_prop("a1-history-abandon-in-tx", 16, tier.pick(500, 10_000), || strategy::case(profiles::c06(tier, true, true)), pdusim::prop_closure("C06"));
+
+    // Yield-level schedules (engine A2): the clock is moved / the request abandoned at every
+    // yield point of the transmit and receive paths in turn, with a competitor for the slot.
+    crate::a2_checks::regressions(&mut check, true);
+
+    for (name, sc) in crate::a2_checks::c06_scenarios() {
+        crate::a2_checks::explore(&mut check, name, &sc, tier.pick(2, 3), true, tier.pick(40_000, 1_500_000));
+    }
+
+    crate::a2_checks::run_random(&mut check, "a2-random", tier.pick(1_000, 30_000), true);
 
     check.finish()
 }
